@@ -83,14 +83,16 @@ private:
 
 [[nodiscard]] constexpr auto operator+(weekday const& lhs, days const& rhs) noexcept -> weekday
 {
-    return weekday{static_cast<unsigned>((static_cast<int32_t>(lhs.c_encoding()) + rhs.count()) % 7)};
+    auto const n = (static_cast<long long>(lhs.c_encoding()) + rhs.count()) % 7;
+    return weekday{static_cast<unsigned>(n < 0 ? n + 7 : n)};
 }
 
 [[nodiscard]] constexpr auto operator+(days const& lhs, weekday const& rhs) noexcept -> weekday { return rhs + lhs; }
 
 [[nodiscard]] constexpr auto operator-(weekday const& lhs, days const& rhs) noexcept -> weekday
 {
-    return weekday{static_cast<unsigned>((static_cast<int32_t>(lhs.c_encoding()) - rhs.count()) % 7)};
+    auto const n = (static_cast<long long>(lhs.c_encoding()) - rhs.count()) % 7;
+    return weekday{static_cast<unsigned>(n < 0 ? n + 7 : n)};
 }
 
 [[nodiscard]] constexpr auto operator-(weekday const& lhs, weekday const& rhs) noexcept -> days
